@@ -27,6 +27,31 @@ theorem completeFailure_state (e : Engine) (id : Nat) (k : String) (h : e.state 
         · exact h4
         · simpa [Engine.emit] using h4
 
+theorem processAckTimeouts_state : ∀ (fuel : Nat) (e : Engine), e.state ≠ .pendingDisconnect →
+    (Engine.processAckTimeouts fuel e).1.state = e.state := by
+  intro fuel
+  induction fuel with
+  | zero => intro e _; rfl
+  | succ f ih =>
+    intro e h
+    unfold Engine.processAckTimeouts
+    split
+    · rfl
+    · rename_i id deadline _
+      split
+      · simp only []
+        have h1 : (({ e with timeouts := e.timeouts.erase (id, deadline) } : Engine).completeFailure id "AckTimeout").1.state = e.state :=
+          completeFailure_state ({ e with timeouts := e.timeouts.erase (id, deadline) } : Engine) id "AckTimeout" h
+        generalize ({ e with timeouts := e.timeouts.erase (id, deadline) } : Engine).completeFailure id "AckTimeout" = x at h1 ⊢
+        obtain ⟨e2, r⟩ := x
+        simp only [] at h1 ⊢
+        have h2 := ih e2 (by rw [h1]; exact h)
+        generalize Engine.processAckTimeouts f e2 = y at h2 ⊢
+        obtain ⟨e3, r3⟩ := y
+        simp only [] at h2 ⊢
+        rw [h2, h1]
+      · rfl
+
 theorem failAll_state (ids : List Nat) (k : String) : ∀ (e : Engine), e.state ≠ .pendingDisconnect → (e.failAll ids k).1.state = e.state := by
   unfold Engine.failAll
   suffices h : ∀ (ids : List Nat) (acc : Engine × Res), acc.1.state ≠ .pendingDisconnect →
